@@ -20,13 +20,15 @@ Open Scope N_scope.
 
 (* The numbers and comparison directions, regenerated from the Rust sources on every run
    (Gen/ParamsRegistry.v): next probe 250 ms later, done when now >= start + 750, a probe is due
-   when now >= next_send, jitter drawn from 0..250, second announcement 1000 ms later. *)
+   when now >= next_send, jitter drawn from 0..250, second announcement 1000 ms later (after a
+   registration, after probing, on an interface that was added). *)
 Theorem C07_constants :
   (forall now, probe_next_send now = now + 250) /\
   (forall start now, probe_expired start now = (start + 750 <=? now)) /\
   (forall next now, probe_due next now = (next <=? now)) /\
   jitter_bound_announce = 250 /\
-  (forall now, announce_repeat_probing now = now + 1000) /\ announce_repeat_register = 1000.
+  (forall now, announce_repeat_probing now = now + 1000) /\ announce_repeat_register = 1000 /\
+  announce_repeat_add_interface = 1000.
 Proof. exact c07_constants. Qed.
 
 (* ALL SCHEDULES.  For EVERY sequence of operations - registrations, probing passes, lost
